@@ -281,7 +281,7 @@ func init() {
 	gens["C04"] = genC04
 }
 
-func pow2(n uint) *big.Int { return new(big.Int).Lsh(big.NewInt(1), n) }
+func c04pow2(n uint) *big.Int { return new(big.Int).Lsh(big.NewInt(1), n) }
 func bigAdd(a *big.Int, d int64) string {
 	return new(big.Int).Add(a, big.NewInt(d)).String()
 }
@@ -349,7 +349,7 @@ func genC04(g *G) {
 	}
 	// heights and heads that do not fit machine integers: 2^63-1, 2^63, 2^64-1, 2^64, 2^64+k, 2^65+k, 2^127+k.
 	// Every operand that is a *big.Int in the source takes them (BTC heads are int64, Substrate heads uint32 by type).
-	bases := []*big.Int{new(big.Int).Sub(pow2(63), big.NewInt(1)), pow2(63), new(big.Int).Sub(pow2(64), big.NewInt(1)), pow2(64), pow2(65), pow2(127)}
+	bases := []*big.Int{new(big.Int).Sub(c04pow2(63), big.NewInt(1)), c04pow2(63), new(big.Int).Sub(c04pow2(64), big.NewInt(1)), c04pow2(64), c04pow2(65), c04pow2(127)}
 	for _, b := range bases {
 		for _, conf := range []int64{0, 2, 5} {
 			C := itoa64(conf)
